@@ -412,13 +412,40 @@ func (w *World) opObserve() {
 func (w *World) opRescale() {
 	a := w.pickPoint("a")
 	var lam [32]byte
-	switch w.t.Choose("ops", "lam.kind", 4) {
+	switch w.t.Choose("ops", "lam.kind", 7) {
 	case 0:
 		lam[31] = 2
 	case 1:
 		copy(lam[:], ref.I2OSP32(new(big.Int).Sub(ref.P, big.NewInt(1))))
 	case 2:
 		lam[31] = 1 // the trivial scaling
+	case 4:
+		// steer Z to a value whose stored form looks like a small constant:
+		// 1, 2, p-1, R = 2^256 mod p, 1/R, R^2 (the field arithmetic works on
+		// Montgomery residues, so "Z == 1" tested on the wrong form fires for
+		// 1/R, and so on)
+		if l := w.lambdaForCoord(a, 2, zTargets[w.t.Choose("ops", "lam.ztarget", len(zTargets))]); l != nil {
+			copy(lam[:], ref.I2OSP32(l))
+			w.r.Probe("rescaled_to_special_z")
+			break
+		}
+		lam[31] = 3
+	case 5, 6:
+		// make one raw coordinate of this point coincide with the same raw
+		// coordinate of another pool point (different abstract points that
+		// look alike to code comparing coordinates without cross-multiplying)
+		b := w.pickPoint("lam.other")
+		co := w.t.Choose("ops", "lam.coord", 3)
+		if b != a && w.init[b] {
+			rb := rawOf(w.points[b])
+			target := ref.OS2IP([][]byte{rb.x[:], rb.y[:], rb.z[:]}[co])
+			if l := w.lambdaForCoord(a, co, target); l != nil {
+				copy(lam[:], ref.I2OSP32(l))
+				w.r.Probe("rescaled_to_coincide_with_other_point")
+				break
+			}
+		}
+		lam[31] = 5
 	default:
 		v := ref.OS2IP(w.t.Bytes("ops", "lam.rnd", 32))
 		v.Mod(v, new(big.Int).Sub(ref.P, big.NewInt(1)))
@@ -440,6 +467,130 @@ func (w *World) opRescale() {
 		// the abstract point has not changed: every encoding must be the same
 		if after := encState(w.points[a]); after != before {
 			w.r.Violate("C03", "observation-depends-on-representative", "UncompressedBytes", w.step, "p%d encodes to %s, after scaling (X,Y,Z) by %x to %s", a, before, lam, after)
+		}
+	}
+}
+
+// zTargets are the values opRescale steers a Z coordinate to.
+var zTargets = func() []*big.Int {
+	r := new(big.Int).Lsh(big.NewInt(1), 256)
+	r.Mod(r, ref.P)
+	rinv := new(big.Int).ModInverse(r, ref.P)
+	r2 := new(big.Int).Mul(r, r)
+	r2.Mod(r2, ref.P)
+	return []*big.Int{big.NewInt(1), big.NewInt(2), new(big.Int).Sub(ref.P, big.NewInt(1)), r, rinv, r2}
+}()
+
+// lambdaForCoord returns the scaling that turns raw coordinate co (0 = X,
+// 1 = Y, 2 = Z) of slot a into target, or nil if there is none.
+func (w *World) lambdaForCoord(a, co int, target *big.Int) *big.Int {
+	if !w.init[a] || target.Sign() == 0 {
+		return nil
+	}
+	ra := rawOf(w.points[a])
+	cur := ref.OS2IP([][]byte{ra.x[:], ra.y[:], ra.z[:]}[co])
+	if cur.Sign() == 0 {
+		return nil
+	}
+	l := new(big.Int).ModInverse(cur, ref.P)
+	l.Mul(l, target)
+	l.Mod(l, ref.P)
+	if l.Sign() == 0 {
+		return nil
+	}
+	return l
+}
+
+// coincidentPairs: curve points P = (x, y) and Q = (mu*x, mu*y) (both on the
+// curve: x^3 = 7(1+mu)/mu^2), so that P held as (mu*x : mu*y : mu) and Q held
+// as (mu*x : mu*y : 1) have identical raw X and Y and are different points.
+var coincidentPairs = func() [][3]*big.Int {
+	var out [][3]*big.Int
+	e := new(big.Int).Add(ref.P, big.NewInt(2))
+	e.Div(e, big.NewInt(9)) // p = 7 mod 9: a cube root of c, if any, is c^((p+2)/9)
+	for mu := int64(2); mu < 120 && len(out) < 12; mu++ {
+		m := big.NewInt(mu)
+		c := new(big.Int).Mul(m, m)
+		c.ModInverse(c, ref.P)
+		c.Mul(c, big.NewInt(7*(1+mu)))
+		c.Mod(c, ref.P)
+		x := new(big.Int).Exp(c, e, ref.P)
+		if new(big.Int).Exp(x, big.NewInt(3), ref.P).Cmp(c) != 0 {
+			continue
+		}
+		y2 := new(big.Int).Exp(x, big.NewInt(3), ref.P)
+		y2.Add(y2, big.NewInt(7))
+		y2.Mod(y2, ref.P)
+		y, ok := ref.Sqrt(y2)
+		if !ok {
+			continue
+		}
+		mx, my := new(big.Int).Mul(m, x), new(big.Int).Mul(m, y)
+		mx.Mod(mx, ref.P)
+		my.Mod(my, ref.P)
+		if !ref.OnCurve(x, y) || !ref.OnCurve(mx, my) {
+			continue
+		}
+		out = append(out, [3]*big.Int{m, x, y})
+	}
+	return out
+}()
+
+// opCoincident puts such a pair into two pool slots and adds / subtracts /
+// compares them in both orders.
+func (w *World) opCoincident() {
+	if len(coincidentPairs) == 0 {
+		return
+	}
+	t := coincidentPairs[w.t.Choose("ops", "coin.which", len(coincidentPairs))]
+	mu, x, y := t[0], t[1], t[2]
+	if w.t.Bool("ops", "coin.negy") {
+		y = new(big.Int).Sub(ref.P, y)
+	}
+	a := w.pickPoint("coin.a")
+	b := (a + 1 + w.t.Choose("ops", "coin.b", nPoints-1)) % nPoints
+	var xb, yb, mxb, myb, lam [32]byte
+	copy(xb[:], ref.I2OSP32(x))
+	copy(yb[:], ref.I2OSP32(y))
+	mx, my := new(big.Int).Mul(mu, x), new(big.Int).Mul(mu, y)
+	copy(mxb[:], ref.I2OSP32(mx.Mod(mx, ref.P)))
+	copy(myb[:], ref.I2OSP32(my.Mod(my, ref.P)))
+	copy(lam[:], ref.I2OSP32(mu))
+	pa, errA := secp256k1.NewPointFromCoords(&xb, &yb)
+	pb, errB := secp256k1.NewPointFromCoords(&mxb, &myb)
+	if errA != nil || errB != nil || !secp256k1.VerifRescale(pa, &lam) {
+		w.r.Hist("%d coincident pair mu=%d: construction refused (%v, %v)", w.step, mu, errA, errB)
+		return
+	}
+	w.points[a], w.points[b] = pa, pb
+	w.mp[a], w.init[a] = ref.Pt{X: x, Y: y}, true
+	w.mp[b], w.init[b] = ref.Pt{X: mx, Y: my}, true
+	ra, rb := rawOf(pa), rawOf(pb)
+	w.r.Hist("%d coincident pair mu=%d: p%d=(x,y) held with Z=mu, p%d=(mu*x,mu*y) held with Z=1; raw X equal=%v raw Y equal=%v", w.step, mu, a, b, ra.x == rb.x, ra.y == rb.y)
+	w.r.Fault("different_points_with_identical_raw_xy")
+	r := w.pickPoint("coin.recv")
+	for _, ord := range [][2]int{{a, b}, {b, a}} {
+		p, q := ord[0], ord[1]
+		w.execPointCall(&pointCall{name: "Add", recv: r, pargs: []int{p, q}, desc: fmt.Sprintf("p%d.Add(p%d,p%d) [coincident raw X,Y]", r, p, q),
+			f:     func(v *secp256k1.Point, pa []*secp256k1.Point, _ []*secp256k1.Scalar) { v.Add(pa[0], pa[1]) },
+			model: func(m []ref.Pt) ref.Pt { return m[0].Add(m[1]) }})
+		if !w.init[p] || !w.init[q] {
+			return // the receiver was one of the pair
+		}
+		w.execPointCall(&pointCall{name: "Subtract", recv: r, pargs: []int{p, q}, desc: fmt.Sprintf("p%d.Subtract(p%d,p%d) [coincident raw X,Y]", r, p, q),
+			f:     func(v *secp256k1.Point, pa []*secp256k1.Point, _ []*secp256k1.Scalar) { v.Subtract(pa[0], pa[1]) },
+			model: func(m []ref.Pt) ref.Pt { return m[0].Add(m[1].Neg()) }})
+		if !w.init[p] || !w.init[q] {
+			return
+		}
+		if w.mp[p].Eq(w.mp[q]) {
+			continue
+		}
+		var eq uint64
+		po := protect(func() { eq = w.points[p].Equal(w.points[q]) })
+		w.r.Hist("%d p%d.Equal(p%d) [coincident raw X,Y] -> %d panic=%v", w.step, p, q, eq, po.panicked)
+		if po.panicked || eq != 0 {
+			w.r.Violate("C03", "observation-mismatch", "Equal", w.step, "p%d.Equal(p%d) = %d (panic=%v) for two different points whose raw X and Y coincide (Z = %d and Z = 1)", p, q, eq, po.panicked, mu)
 		}
 	}
 }
@@ -526,6 +677,14 @@ func (w *World) opH2C() {
 	case 0:
 		n := 32 + w.t.Choose("ops", "h2c.len", 33)
 		src := w.t.Bytes("ops", "h2c.src", n)
+		// field elements on which a map to the curve has exceptional cases:
+		// 0, 1, -1, and the two u with Z*u^2 = -1 for Z = -11 (u^2 = 1/11,
+		// where the simplified SWU denominator vanishes)
+		if sp := w.t.Choose("ops", "h2c.special", 12); sp < len(specialUniform) {
+			src = make([]byte, n)
+			copy(src[n-32:], ref.I2OSP32(specialUniform[sp]))
+			w.r.Probe("uniform_bytes_exceptional_field_element")
+		}
 		w.execPointCall(&pointCall{name: "SetUniformBytes", recv: r, desc: fmt.Sprintf("p%d.SetUniformBytes(%x)", r, src),
 			f: func(v *secp256k1.Point, _ []*secp256k1.Point, _ []*secp256k1.Scalar) { v.SetUniformBytes(src) }})
 	default:
@@ -552,3 +711,15 @@ func (w *World) opH2C() {
 		w.r.Hist("%d p%d = h2c(ro=%v, dst=%x, msg=%x) -> %s", w.step, r, ro, dst, msg, out)
 	}
 }
+
+// specialUniform: field elements u handed to SetUniformBytes (as a
+// big-endian string that reduces to u).
+var specialUniform = func() []*big.Int {
+	pm1 := new(big.Int).Sub(ref.P, big.NewInt(1))
+	out := []*big.Int{big.NewInt(0), big.NewInt(1), pm1}
+	inv11 := new(big.Int).ModInverse(big.NewInt(11), ref.P)
+	if r, ok := ref.Sqrt(inv11); ok {
+		out = append(out, r, new(big.Int).Sub(ref.P, r))
+	}
+	return out
+}()
